@@ -222,6 +222,33 @@ func (e *Enc) EncodeTop() {
 			continue
 		}
 		ob := e.oblige(fmt.Sprintf("%s:ensures:%s", e.topName(), en.Label), "ensures", tTrue, and(goals...), "")
+		// vacuity guard: the hypothesis of an implication clause must be reachable at some return (otherwise the
+		// clause proves whatever its conclusion says)
+		if imp, ok := en.E.(*CBin); ok && imp.Op == "==>" {
+			var reachA []Term
+			okA := true
+			for _, ex := range rets {
+				penv := &CEnv{e: e, vars: map[string]TT{}, cur: ex.st, old: e.entryState, pkg: pkg, guard: ex.cond}
+				for n, v := range e.paramTerms {
+					penv.vars[n] = v
+				}
+				for i, rn := range c.Results {
+					if i < len(ex.results) {
+						penv.vars[rn] = TT{ex.results[i], fn.Signature.Results().At(i).Type()}
+					}
+				}
+				a, err := penv.evalBool(imp.X)
+				if err != nil {
+					okA = false
+					break
+				}
+				reachA = append(reachA, and(ex.cond, a))
+			}
+			if okA && len(reachA) > 0 {
+				cv := e.oblige(fmt.Sprintf("%s:cover:ensures:%s", e.topName(), en.Label), "cover", tTrue, or(reachA...), "")
+				cv.Cover = true
+			}
+		}
 		for _, sp := range c.Splits {
 			v, err := env.eval(sp.Var)
 			if err != nil || v.Sort != SInt {
@@ -239,6 +266,16 @@ func (e *Enc) EncodeTop() {
 	}
 	if !c.ModAll || c.PureIf != nil {
 		e.frameObligations(c, env, rets)
+	}
+	// vacuity guard for step clauses: the hypothesis of each must be reachable on some edge that ends an iteration
+	var sks []string
+	for k := range e.stepCover {
+		sks = append(sks, k)
+	}
+	sort.Strings(sks)
+	for _, k := range sks {
+		cv := e.oblige(k, "cover", tTrue, or(e.stepCover[k]...), "")
+		cv.Cover = true
 	}
 }
 
